@@ -445,7 +445,8 @@ class Recfile(object):
         if self.robj is None:
             raise ValueError("You have not yet opened a file")
 
-        dataview = data.view(numpy.ndarray)
+        # the C++ writer reads the array memory as one dense buffer
+        dataview = numpy.ascontiguousarray(data.view(numpy.ndarray))
 
         if self.is_ascii:
             # for ascii, make sure the data are in native format.  This greatly
